@@ -22,6 +22,14 @@ Section ArithSites.
   Definition m_size_exp (ss r dt : num) : num := nmul ss (nexp (nmul r dt)).
   Definition m_size_lin (ss es dt : num) : num := nadd ss (nmul (nsub es ss) dt).
 
+  (* the final  lo = min(start_size, end_size); hi = max(start_size, end_size); return min(max(N, lo), hi) *)
+  Definition m_size_lo (ss es : num) : num := pymin ss es.
+  Definition m_size_hi (ss es : num) : num := pymax ss es.
+  Definition m_size_clamp (ss es x : num) : num := pymin (pymax x (m_size_lo ss es)) (m_size_hi ss es).
+
+  Lemma clamp_size_site e x : clamp_size e x = m_size_clamp (e_ssize e) (e_esize e) x.
+  Proof. reflexivity. Qed.
+
   Lemma pdiv_ok a b v : pdiv a b = Ok v -> v = ndiv a b.
   Proof. unfold pdiv. destruct (neqb b n0); [discriminate|]. intro H; injection H as <-; reflexivity. Qed.
   Lemma plog_ok x v : plog x = Ok v -> nisnan x = false -> v = nlog x.
@@ -29,12 +37,14 @@ Section ArithSites.
   Lemma pexp_ok x v : pexp x = Ok v -> v = nexp x.
   Proof. unfold pexp. destruct (_ && _); [discriminate|]. intro H; injection H as <-; reflexivity. Qed.
 
-  (* the exponential branch of size_at returns start_size * exp(r * dt) with the source's r and dt *)
+  (* the exponential branch of size_at returns start_size * exp(r * dt) with the source's r and dt,
+     passed through the final clamp *)
   Lemma size_exp_site e t v :
     e_sf e = "exponential" -> isclose0 t (e_end e) = false -> neqb (e_ssize e) (e_esize e) = false ->
     nisnan (ndiv (e_esize e) (e_ssize e)) = false ->
     size_in_epoch e t = Ok v ->
-    v = m_size_exp (e_ssize e) (m_size_r (e_ssize e) (e_esize e)) (m_size_dt (e_start e) (e_end e) t).
+    v = m_size_clamp (e_ssize e) (e_esize e)
+          (m_size_exp (e_ssize e) (m_size_r (e_ssize e) (e_esize e)) (m_size_dt (e_start e) (e_end e) t)).
   Proof.
     intros Hsf Hc Hn Hq. rewrite (size_formula_exp e t Hsf Hc Hn).
     destruct (pdiv (nsub (e_start e) t) (nsub (e_start e) (e_end e))) as [dt|] eqn:Edt; cbn [bind]; [|discriminate].
@@ -49,7 +59,8 @@ Section ArithSites.
   Lemma size_lin_site e t v :
     e_sf e = "linear" -> isclose0 t (e_end e) = false -> neqb (e_ssize e) (e_esize e) = false ->
     size_in_epoch e t = Ok v ->
-    v = m_size_lin (e_ssize e) (e_esize e) (m_size_dt (e_start e) (e_end e) t).
+    v = m_size_clamp (e_ssize e) (e_esize e)
+          (m_size_lin (e_ssize e) (e_esize e) (m_size_dt (e_start e) (e_end e) t)).
   Proof.
     intros Hsf Hc Hn. rewrite (size_formula_lin e t Hsf Hc Hn).
     destruct (pdiv (nsub (e_start e) t) (nsub (e_start e) (e_end e))) as [dt|] eqn:Edt; cbn [bind]; [|discriminate].
